@@ -11,7 +11,7 @@ from core import tool, Check, run_check
 import gen
 
 
-def build_inputs(rng, tmp, nrec, with_reads=False):
+def build_inputs(rng, tmp, nrec, with_reads=False, empty_line=False):
     g = gen.rgfa(rng, max_ref=2, max_ref_segs=7, maxlen=(30 if with_reads else 6))
     for k, s in enumerate(g.segs):
         s["BO"], s["NO"] = (k, 0) if s["SR"] == 0 else (k, 1)
@@ -48,6 +48,11 @@ def build_inputs(rng, tmp, nrec, with_reads=False):
         lines = align_records(lines)
     text = "".join(l + "\n" for l in lines)
     gtext = g.text()
+    if empty_line:
+        # an empty line between the S block and the L block (the plain reader skips it; a compressed reader must too)
+        gl = gtext.split("\n")
+        k = next((i for i, l in enumerate(gl) if l.startswith("L")), len(gl) // 2)
+        gtext = "\n".join(gl[:k] + [""] + gl[k:])
     p = {"gaf": os.path.join(tmp, "a.gaf"), "gafz": os.path.join(tmp, "b.gaf.gz"), "gfa": os.path.join(tmp, "g.gfa"), "gfaz": os.path.join(tmp, "h.gfa.gz")}
     gen.write_text(p["gaf"], text)
     gen.write_bgzf(p["gafz"], text)          # default block size: > 64 KiB of text gives several blocks
@@ -336,7 +341,9 @@ def main():
         for it in range(3 if quick else 20):
             with_reads = it % 3 == 2
             nrec = 200 if with_reads else (1500 if it % 3 == 0 else 60)
-            g, lines, p, nblocks = build_inputs(rng, tmp, nrec, with_reads)
+            g, lines, p, nblocks = build_inputs(rng, tmp, nrec, with_reads, empty_line=(it % 3 == 1))
+            if it % 3 == 1:
+                ck.count("graph-file-with-an-empty-line")
             ids = [s["id"] for s in g.segs]
             s0 = rng.choice([s for s in g.segs if s["SR"] == 0])
             choices = ([rng.choice(ids) for _ in range(3)], "%s:%d-%d" % (s0["SN"], s0["SO"], s0["SO"] + len(s0["seq"]) + 2))
